@@ -38,6 +38,9 @@ structure Adv where
   routes : List RAd
   path : List Node
   seenBy : List Node
+  /-- `true` for a ROUTE_WITHDRAW frame (it shares the seen cache, the loop test and floodFrame with
+      advertisements); its `routes` are the withdrawn CIDR routes, its `path` is empty. -/
+  wd : Bool := false
 deriving DecidableEq, Repr, Inhabited
 
 structure Entry where
@@ -137,11 +140,17 @@ inductive Res where
 deriving DecidableEq, Repr
 
 /-- What `floodAdvertisementEncrypted` sends on: metric + 1 (C13 repair), self prepended to the
-    path, self appended to seen-by. -/
+    path, self appended to seen-by. `floodWithdrawal` only appends self to seen-by. -/
 def fwdAdv (self : Node) (a : Adv) : Adv :=
-  { a with routes := a.routes.map (fun r => { r with metric := inc16 r.metric }),
-           path := self :: a.path,
-           seenBy := a.seenBy ++ [self] }
+  if a.wd then { a with seenBy := a.seenBy ++ [self] }
+  else
+    { a with routes := a.routes.map (fun r => { r with metric := inc16 r.metric }),
+             path := self :: a.path,
+             seenBy := a.seenBy ++ [self] }
+
+/-- `ProcessRouteWithdraw`: the CIDR routes of that origin named in the withdrawal. -/
+def withdrawn (a : Adv) (e : Entry) : Bool :=
+  e.kind == 0 && e.origin == a.origin && a.routes.any (fun r => r.kind == 0 && r.key == e.key)
 
 def hopsOf (a : Adv) : Nat := if a.path.length = 0 then a.seenBy.length else a.path.length
 
@@ -155,6 +164,10 @@ def handle (mh : Nat) (peers : List Node) (self frm : Node) (clock : Nat) (a : A
   else
     let st1 := { st with seen := (a.origin, a.seq) :: st.seen }
     if self ∈ a.seenBy then (st1, [], .drop)
+    else if a.wd then
+      -- HandleRouteWithdraw: same cache test-and-set and loop test, then remove and flood on
+      ({ st1 with tab := st1.tab.filter (fun e => !(withdrawn a e)) },
+       (fwdTargets peers frm (fwdAdv self a).seenBy).map (fun p => (p, fwdAdv self a)), .new)
     else if mh > 0 ∧ hopsOf a > mh then (st1, [], .drop)
     else
       let st2 := a.routes.foldl (storeRoute self frm a clock) st1
@@ -169,6 +182,12 @@ def announceAdv (self : Node) (st : NodeSt) : Adv :=
   { origin := self, seq := st.seq + 1,
     routes := st.locals ++ [{ kind := 3, key := self, metric := 0 }],
     path := [self], seenBy := [self] }
+
+/-! ### WithdrawLocalRoutes -/
+
+def withdrawAdv (self : Node) (st : NodeSt) : Adv :=
+  { origin := self, seq := st.seq + 1, routes := st.locals.filter (fun r => r.kind == 0),
+    path := [], seenBy := [self], wd := true }
 
 /-! ### SendFullTable -/
 
@@ -227,6 +246,7 @@ inductive Op where
   | connect (a b : Node)
   | replay (a b : Node) (ord : List Node)
   | announce (a : Node)
+  | withdraw (a : Node)
   | deliver (a b : Node) (i : Nat)
   | dup (a b : Node) (i : Nat)
   | drop (a b : Node) (i : Nat)
@@ -292,6 +312,14 @@ def stepCore (s : Net) : Op → Net
     if a < s.n then
       let st := s.nodes a
       let m := announceAdv a st
+      { setNode s a { st with seq := st.seq + 1 } with
+        flight := s.flight ++ (peersOf s a).map (fun p => { src := a, dst := p, adv := m }) }
+    else s
+  | .withdraw a =>
+    -- WithdrawLocalRoutes returns early (no sequence number used) without local CIDR routes
+    if a < s.n ∧ (s.nodes a).locals.any (fun r => r.kind == 0) then
+      let st := s.nodes a
+      let m := withdrawAdv a st
       { setNode s a { st with seq := st.seq + 1 } with
         flight := s.flight ++ (peersOf s a).map (fun p => { src := a, dst := p, adv := m }) }
     else s
